@@ -206,6 +206,9 @@ def run(ctx):
             ctx.sample(sess)
     # realistic programs: graph encodings and a puzzle solver on tiny boards (same Solver object)
     realistic(ctx, st)
+    from .c13 import realistic_stage
+
+    realistic_stage(ctx, ctx.tier == "thorough")
     for name, n in st.op_hist.items():
         ctx.count("op." + name, n)
     msolve.uninstall()
